@@ -1,6 +1,7 @@
 package main
 
 import (
+	"time"
 	"net/url"
 	"fmt"
 	"io"
@@ -69,6 +70,15 @@ func newPickEnv(c *Ctx) *pickEnv {
 			} else {
 				w.WriteHeader(404)
 			}
+		case "slow": // a healthy holder on a thin pipe: the transfer takes longer than any fixed patience, and completes
+			body := "W" + parts[0] + strings.Repeat("s", 4000)
+			w.Header().Set("Content-Length", fmt.Sprint(len(body)))
+			fmt.Fprint(w, body[:2000])
+			if fl, ok := w.(http.Flusher); ok {
+				fl.Flush()
+			}
+			time.Sleep(10500 * time.Millisecond)
+			fmt.Fprint(w, body[2000:])
 		case "servererror":
 			// the failing blob: 5xx at the ware's own address, 404 for anything the server does not know
 			if len(parts) == 2 || (len(parts) == 5 && parts[4] == pickHash) {
@@ -305,6 +315,35 @@ func pickEngine(c *Ctx) {
 		}
 		return
 	}
+	// a slow holder, in the background for the length of the run: it serves the whole ware
+	slowDone := make(chan string, 1)
+	go func() {
+		defer func() {
+			if r := recover(); r != nil {
+				slowDone <- fmt.Sprint("panic: ", r)
+			}
+		}()
+		rd, err := util.PickReader(api.WareID{Type: "tar", Hash: pickHash}, []api.WarehouseLocation{api.WarehouseLocation(env.deadURL + "/x"), api.WarehouseLocation(env.srv.URL + "/777/slow")}, false, rio.Monitor{})
+		if err != nil {
+			slowDone <- "not served: " + catOf(err) + ": " + err.Error()
+			return
+		}
+		b, rerr := io.ReadAll(rd)
+		rd.Close()
+		if rerr != nil || len(b) != 4004 {
+			slowDone <- fmt.Sprintf("the transfer broke off after %d of 4004 bytes: %v", len(b), rerr)
+			return
+		}
+		slowDone <- ""
+	}()
+	defer func() {
+		op := "pick-slow-holder"
+		c.EmitR(op, "skip", "skip")
+		if r := <-slowDone; r != "" {
+			c.PropFail("pick-holder-not-served", "a healthy http holder that needs 10.5 s to send the ware (Content-Length announced, half sent at once): "+r, op)
+		}
+		c.H("slow-holder")
+	}()
 	// a ware ID is not a path: hashes with separators or dot segments name nothing in a content-addressed warehouse,
 	// local or http — in particular not some other object the server happens to have (here: /7/holding)
 	for _, h := range []string{"../../7/holding", "../7/holding", "x/../../../7/holding", "7/holding", "..", ".", "a/b", "abcdefghijk/../../../7/holding"} {
